@@ -462,8 +462,11 @@ class Diameter:
         self._association = DiameterAssociation(self._connection, self._base)
         self._peer_state_machine = PeerStateMachine(self._association)
 
-        self._peer_state_machine.start()
+        #: The transport is up (or at least on its way) before the 
+        #: PeerStateMachine's thread starts to look at it: that thread closes 
+        #: the association as soon as it finds the connection refused.
         self._association.start()
+        self._peer_state_machine.start()
 
 
     def reset(self) -> None:
